@@ -352,7 +352,44 @@ def shards(tier, seed):
     out += [('compose', i) for i in range(0, len(compose_cases()), 64)]
     out += [('pairs', w, o1) for w in (8, 32) for o1 in PAIR_OPS]
     out += [('backing', i) for i in range(4)]
+    out += [('cmptwins', 0)]
     return out
+
+
+def compose_twin_cases():
+    """Two compositions with the same slot layout that differ only in one part, the two parts chosen to look alike to a digest
+    (byte 0 / byte 2 of one value, bit 0 / bit 2, exchanged arms of a conditional, exchanged operands of a subtraction),
+    combined by ^ - | & + or placed as the two arms of a conditional, under states that bind the value, the condition or
+    the untouched slot."""
+    ex, mi = exprgen.M()
+    I = exprgen.Int
+    x, y = ex.ExprId('x32', 32), ex.ExprId('y32', 32)
+    c1 = ex.ExprId('c1', 1)
+    d8, d16 = ex.ExprId('d8', 8), ex.ExprId('d16', 16)
+    a8, b8 = ex.ExprId('a8', 8), ex.ExprId('b8', 8)
+    part_pairs = [(ex.ExprSlice(x, 0, 8), ex.ExprSlice(x, 16, 24)), (ex.ExprSlice(x, 8, 16), ex.ExprSlice(x, 24, 32)), (ex.ExprSlice(x, 4, 12), ex.ExprSlice(x, 6, 14)),
+                  (ex.ExprCond(c1, a8, b8), ex.ExprCond(c1, b8, a8)), (ex.ExprOp('-', a8, b8), ex.ExprOp('-', b8, a8)),
+                  (ex.ExprOp('<<', a8, b8), ex.ExprOp('<<', b8, a8)), (ex.ExprMem(x, 8), ex.ExprMem(y, 8))]
+    bit_pairs = [(ex.ExprSlice(x, 0, 1), ex.ExprSlice(x, 2, 3)), (ex.ExprSlice(x, 4, 5), ex.ExprSlice(x, 6, 7))]
+    states = [{}, {x: I(0x11223344, 32)}, {x: ex.ExprOp('+', y, I(0x01020304, 32))}, {d8: I(0x5a, 8), d16: I(0x1234, 16)}, {c1: I(0, 1), a8: I(3, 8)}, {a8: I(0x80, 8), b8: I(0x7f, 8)},
+              {x: I(0x00ff00ff, 32), d8: I(0, 8)}]
+    n = 0
+    for p1, p2 in part_pairs:
+        for lay in ('low', 'high'):
+            mk = (lambda p: ex.ExprCompose([(p, 0, 8), (d8, 8, 16)])) if lay == 'low' else (lambda p: ex.ExprCompose([(d16, 0, 16), (d8, 16, 24), (p, 24, 32)]))
+            C1, C2 = mk(p1), mk(p2)
+            exprs = [ex.ExprOp(o, C1, C2) for o in ('^', '-', '|', '&', '+')] + [ex.ExprOp('+', C1, ex.ExprOp('-', C2)), ex.ExprCond(c1, C1, C2), ex.ExprOp('==', C1, C2)]
+            for e in exprs:
+                for st in states:
+                    yield e, dict(st), ('ct', n)
+                    n += 1
+    z7 = ex.ExprId('z7', 7)
+    for p1, p2 in bit_pairs:
+        C1, C2 = ex.ExprCompose([(p1, 0, 1), (z7, 1, 8)]), ex.ExprCompose([(p2, 0, 1), (z7, 1, 8)])
+        for e in [ex.ExprOp(o, C1, C2) for o in ('^', '-', '|', '&')] + [ex.ExprCond(c1, C1, C2)]:
+            for st in states[:3]:
+                yield e, dict(st), ('ct', n)
+                n += 1
 
 
 def backing_cases(rng, part):
@@ -415,6 +452,12 @@ def run_shard(shard, tier, seed):
         sh.sample({'operator': op, 'widths': widths, 'state': [hex(v) for v in combos[0]], 'result': _safe_str(e, dict((i_, exprgen.Int(v, i_.size)) for i_, v in zip(ids, combos[0])))}, 1)
         return sh
     rng = common.rng_for(seed, 'C06', shard[0], shard[1])
+    if shard[0] == 'cmptwins':
+        for e, state, tag in compose_twin_cases():
+            if irsem.typecheck(e):
+                continue
+            check_case(sh, e, state, tag, 'compose-twins', want_const=False)
+        return sh
     if shard[0] == 'backing':
         CALLBACKS['n'] = 0
         for e, state, tag in backing_cases(rng, shard[1]):
